@@ -184,6 +184,11 @@ class AsyncTLSStreamTransport(AsyncStreamTransport):
                     try:
                         try:
                             await self._retry_ssl_method(self._ssl_object.unwrap)
+                        except _ssl_module.SSLError:
+                            # unwrap() may have produced the close_notify alert before failing
+                            # (e.g. application data received from the peer and not read yet): send it anyway.
+                            with contextlib.suppress(OSError):
+                                await self.__flush_pending_writes()
                         except OSError:
                             pass
                         self._read_bio.write_eof()
